@@ -506,7 +506,61 @@ def check_part(ctx, n, label, unm_choices=(0, 0, 0.2)):
                    {"kind": "nest", "case": c, "repr": repr(c)}, no_input=True, kind="correspondence")
 
 
+# ----------------------------------------------------------------------------- C08: a second run is a no-op (oracle on the real code)
+def run_twice(c):
+    src = program(c)
+    r1 = driver.run_inproc({"test_a.py": src}, c["flags1"], block_black=True)
+    out = {"session_exc": r1["session_exc"], "source": src}
+    if r1["session_exc"]:
+        return out
+    mid = r1["files"]["test_a.py"].decode()
+    r2 = driver.run_inproc({"test_a.py": mid}, c["flags2"], block_black=True)
+    out.update({"session_exc2": r2["session_exc"], "mid": mid, "after": r2["files"]["test_a.py"].decode(), "reported2": sorted(r2["reported"]),
+                "tests2": [t[2][:200] for t in r2["tests"] if t[2] != "ok"]})
+    return out
+
+
+def second_run_oracle(c, o):
+    if o.get("session_exc") or o.get("session_exc2"):
+        return f"a run failed: {o.get('session_exc') or o.get('session_exc2')}"
+    try:
+        arg1 = ast.get_source_segment(o["mid"], snapshot_arg(o["mid"])[1])
+    except Exception as e:  # noqa
+        return f"first run left an unusable file: {e}"
+    if o["after"] != o["mid"]:
+        arg2 = ast.get_source_segment(o["after"], snapshot_arg(o["after"])[1])
+        return f"the second run ({c['flags2']}) changed the file again: {arg1} -> {arg2}"
+    if o["reported2"]:
+        return f"the second run reports {o['reported2']} for {arg1}"
+    if o["tests2"]:
+        return f"the second run fails: {o['tests2'][0]}"
+    return None
+
+
+def check_second_run(ctx, n, label):
+    from .core import pmap
+    cases = []
+    for _ in range(n):
+        c = gen_case(ctx.rng, unm_choices=(0,))
+        c["flags1"] = ("fix", "update") + tuple(x for x in ("create", "trim") if ctx.rng.random() < 0.5)
+        c["flags2"] = tuple(x for x in ("create", "fix", "trim", "update") if ctx.rng.random() < 0.6)
+        cases.append(c)
+    for c, o in zip(cases, pmap(run_twice, cases, chunksize=8)):
+        ctx.count(("nest-twice", render_tree(c["tree"]), render_val(c["new"]), c["flags1"], c["flags2"]), not veq(tree_value(c["tree"]), c["new"]))
+        why = second_run_oracle(c, o)
+        if why:
+            ctx.report(f"{label} oracle (nested value, second run): {why}: {render_tree(c['tree'])} observed {render_val(c['new'])} first run {c['flags1']}",
+                       {"kind": "nest-twice", "case": c, "repr": repr(c)})
+    ctx.coverage["oracle"]["nested_second_runs"] = n
+
+
 def replay_case(case):
+    if case.get("kind") == "nest-twice":
+        c = eval(case["repr"])
+        o = run_twice(c)
+        why = second_run_oracle(c, o)
+        print(o.get("mid", "")[-300:], "\n->", o.get("after", "")[-300:], "\noracle:", why)
+        return why is None
     c = eval(case["repr"])
     o = run_case(c)
     print(render_tree(c["tree"]), "observed", render_val(c["new"]), "flags", c["flags"], "->", o.get("arg"), o.get("error"), o.get("session_exc"))
